@@ -73,6 +73,7 @@ def run(tier, seed, t0):
     floors = {
         "accepted_reconstructions": (b("accepted:tri_on", 0), 40 * s),
         "cells_validated": (b("cells_validated", 0), 70 * s),
+        "dumbbell_inputs (necks thinner than the sampling distance)": (b("family_tried:dumbbell", 0), 6 * s),
         "second_initialisation_cells_validated": (b("second_initialisation_cells_validated", 0), 30 * s),
         "clean_failures": (b("clean_failure:tri_on", 0), 3 * s),
         "accepted_unaltered_with_triangulation_disabled": (b("accepted:tri_off_triangulated", 0), 8 * s),
